@@ -634,6 +634,32 @@ func c19InProcess(c *core.C, base, outer, store string, dirKind int) {
 			exps = append(exps, expect{kind: "err", desc: dirDesc + "Retrieve(" + short(rid) + ") never stored"})
 		}
 	}
+	if !reconf && r.Intn(3) == 0 {
+		// eight documents with different identifiers stored by overlapping calls on the one instance, then
+		// retrieved one by one: none may affect another
+		var files []string
+		var pdocs []*sbom.Document
+		for j := 0; j < 8; j++ {
+			d := c19Doc(r, fmt.Sprintf("urn:uuid:parallel-%d-%d", c.K, j))
+			// documents of very different sizes, so that a buffer shared between calls shows
+			for k := 0; k < j*7; k++ {
+				d.NodeList.Nodes = append(d.NodeList.Nodes, &sbom.Node{Id: fmt.Sprintf("p%d-%d", j, k), Name: strings.Repeat(string(rune('a'+j)), 20)})
+			}
+			b, _ := proto.Marshal(d)
+			d2 := &sbom.Document{}
+			_ = proto.Unmarshal(b, d2)
+			files = append(files, put(b))
+			pdocs = append(pdocs, d2)
+		}
+		script = append(script, histStep{Op: "pstore", Files: files})
+		exps = append(exps, expect{kind: "ok", desc: "8 overlapping Store calls (different identifiers)"})
+		for _, d := range pdocs {
+			script = append(script, histStep{Op: "retrieve", File: put([]byte(d.Metadata.Id))})
+			exps = append(exps, expect{kind: "doc", doc: d, desc: "Retrieve(" + short(d.Metadata.Id) + ") after the overlapping stores"})
+			model[d.Metadata.Id] = d
+		}
+		c.Cover("in-process-histories-with-overlapping-stores")
+	}
 	sb, _ := json.Marshal(script)
 	chownR(base)
 	cmd := childCmd(true, "storehist", "-dir", store, "-script", put(sb))
